@@ -211,6 +211,12 @@ def constructed_mutations(depth):
     out.append(('AddField.null+initial-str', [MU.AddField(
         'Item', 'n1', models.CharField, initial='x', null=True,
         max_length=10)]))
+    # a relation renamed with an explicit column that equals the new field
+    # name (the default would be <name>_id)
+    out.append(('RenameField.relation-db_column', [MU.RenameField(
+        'Item', 'r', 'n1', db_column='n1')]))
+    out.append(('RenameField.relation-default-column', [MU.RenameField(
+        'Item', 'r', 'n1')]))
     # an attribute going back to None
     out.append(('ChangeField.attr-to-None', [MU.ChangeField(
         'Item', 't', initial=None, max_length=None)]))
@@ -247,6 +253,10 @@ def check_constructed(label, muts, add, stats):
     import sys
     stats['texts'] += 1
     start = c03.narrow_start()
+    if label.startswith('RenameField.relation-'):
+        start = S.clone(start)
+        start['apps'][0]['models'][0]['fields'].append(
+            S.F('r', 'FK', to='va.Item', null=True))
     if label == 'ChangeField.attr-to-None':
         # a TextField that carries a max_length which the change removes
         start = S.clone(start)
